@@ -53,7 +53,8 @@ func VH_C11_mbappAsk() bool {
 			return respLen
 		})
 	}()
-	buf := make([]byte, vInt(0, 3))
+	bl := vInt(0, 3)
+	buf := make([]byte, bl, bl+2) // callers may pass a window of a larger buffer
 	n, err := a.Ask(context.Background(), buf, 2, p2p.IOVec{append([]byte{}, req...)})
 	vAssert(handled == 1, "handler-not-run-exactly-once")
 	switch {
@@ -70,7 +71,7 @@ func VH_C11_mbappAsk() bool {
 	return true
 }
 
-//verif: replay=schedule sched=coop time=concrete unwind=24 cover=both-answered bounds="mbapp: two asks outstanding at once from one swarm to another (symbolic 1-byte requests, multi-part 3-byte responses derived from the request), two server goroutines answering in either order: each Ask returns the answer computed for its own request"
+// verif: replay=schedule sched=coop time=concrete unwind=24 cover=both-answered bounds="mbapp: two asks outstanding at once from one swarm to another (symbolic 1-byte requests, multi-part 3-byte responses derived from the request), two server goroutines answering in either order: each Ask returns the answer computed for its own request"
 func VH_C11_mbappTwoOutstandingAsks() bool {
 	peers := map[vAddr]*Swarm[vAddr, struct{}]{}
 	var s1, s2 []vSent
